@@ -49,6 +49,22 @@ def ga_params(cls):
     return [p for p in inspect.signature(cls.__init__).parameters if "group_address" in p]
 
 
+def sub_device_params(cls):
+    """constructor parameters that take another device (Climate.mode: ClimateMode | None) -> that device's class name;
+    such a composite device aggregates the sub-device's addresses in group_addresses()/has_group_address()"""
+    names = set(device_classes())
+    out = {}
+    for p, v in inspect.signature(cls.__init__).parameters.items():
+        a = str(v.annotation).replace(" | None", "").replace("Optional[", "").rstrip("]").strip().strip("'\"")
+        if a in names:
+            out[p] = a
+    return out
+
+
+def composite_classes():
+    return {n: sub_device_params(c) for n, c in device_classes().items() if sub_device_params(c)}
+
+
 # constructor arguments that are required or that keep a device passive (no tasks, no wall clock)
 EXTRA = {
     "Sensor": [{"value_type": "temperature"}, {"value_type": "percent"}, {"value_type": "string"},
@@ -92,15 +108,40 @@ def random_spec(rng, clsname, naddr, density=0.5):
     return {"cls": clsname, "extra": rng.randrange(len(EXTRA.get(clsname, [{}]))), "ga": ga}
 
 
-def spec_addresses(spec):
-    """Address indices a spec configures (what the device is expected to listen to)."""
+def spec_addresses(spec, specs=None):
+    """Address indices a spec configures (what the device is expected to listen to); with `specs` (the pool) the addresses
+    of its sub-devices (spec["sub"] = {param: pool index}) are included."""
     out = set()
     for lst, _form in spec["ga"].values():
         out.update(i for i in lst if i is not None)
+    if specs is not None:
+        for j in spec.get("sub", {}).values():
+            out |= spec_addresses(specs[j], specs)
     return out
 
 
-def build(xknx, spec, name):
+def build_pool(xknx, specs, prefix="d"):
+    """Build every spec of a pool; composite devices get the already built pool member as their sub-device (the SAME object
+    that is also registered on its own, as Home Assistant does with Climate + ClimateMode)."""
+    built = [None] * len(specs)
+    todo = list(range(len(specs)))
+    for _round in range(len(specs) + 1):
+        rest = []
+        for i in todo:
+            sub = specs[i].get("sub", {})
+            if all(built[j] is not None for j in sub.values()):
+                built[i] = build(xknx, specs[i], f"{prefix}{i}", {p: built[j] for p, j in sub.items()})
+            else:
+                rest.append(i)
+        todo = rest
+        if not todo:
+            break
+    if todo:
+        raise ValueError("cyclic sub-device references")
+    return built
+
+
+def build(xknx, spec, name, sub=None):
     from xknx.devices.light import ColorTemperatureType
     from xknx.remote_value.remote_value_setpoint_shift import SetpointShiftMode
 
@@ -115,6 +156,7 @@ def build(xknx, spec, name):
             kw[p] = addr_arg(lst[0], form)
         else:
             kw[p] = [None if i is None else addr_arg(i, form + k) for k, i in enumerate(lst)]
+    kw.update(sub or {})
     return cls(xknx, name=name, **kw)
 
 
